@@ -7,7 +7,7 @@ import tempfile
 from . import template_targets as TT
 
 LEVEL = 'translation_validation'
-TAGS = ('C17', 'defined')
+TAGS = ('C17', 'defined', 'C02')
 TRUSTED = ['CPython ast.parse on the emitted text', 'replay/C17.py emitter (registers each row through the real API)']
 MIN_OBLIGATIONS = 300
 VENV_PY = '/venv/bin/python'
@@ -79,6 +79,10 @@ def build(src, tier):
             _STATS['samples'].append({'row': it['row'], 'lookup': it['lookup'], 'parent': it['parent'], 'text': it['code']})
     _STATS['texts'] = len(flat)
     worlds.append((TT.world_for(src, tier), flat))
+    # the emitted text returns a declining callback's UNHANDLED and relies on the processor to ask that state again
+    # with EMPTY_SIGNAL and to keep climbing: that half of the equivalence is the offer protocol of dispatch (C02)
+    from . import core_targets as K
+    worlds.append((K.world_for(src, tier), [K.t_tree_lemmas(), K.t_dispatch()]))
     return worlds
 
 
